@@ -1,5 +1,6 @@
 import JoblibModel.Lru
 import JoblibModel.StoreLimits
+import JoblibModel.StoreLimitsOps
 import JoblibModel.IOUtil
 /-! Driver for C18. One request per line (`-` = None, `!` = "the stat call raises OSError"):
 
@@ -10,6 +11,9 @@ import JoblibModel.IOUtil
                                                                  {path size access}*n` | `raised <exception>`
   with `B` = `-` | `i:<int>` | `s:<code points joined by ','>`; the `k` paths are the fault pattern (those for which
   `clear_location` raises).
+* `reducei <0|1> <B> <I> <D> <stop|-> <k> {path}*k <tree>`     → as `reduce` (`reduceSizeInt`), or, when `clear_location`
+  call number `stop` (0-based) raises something that is no `OSError`: `interrupted calls … dirs … items …` (the calls
+  started, the interrupted one last; the store left behind)
 
 `<tree>` = `D <name> <atime|!> <nfiles> {<name> <size|!> <atime|!>}*nfiles <nsubs> {<tree>}*nsubs` (names without blanks);
 a path is its components joined by `/`, `.` for the store location itself. Anything else: `bad-op`. -/
@@ -102,24 +106,42 @@ def showMem : MemResult → String
   | .indexError => "IndexError"
   | .outside => "outside"
 
-def handleReduce : List String → String
-  | hb :: b :: i :: d :: k :: r =>
-    match (if hb = "1" then some true else if hb = "0" then some false else none),
-        parseBytesArg b, optInt? i, optInt? d, k.toNat? with
-    | some hb, some b, some i, some d, some k =>
-      if k ≤ r.length then
-        let faults := (r.take k).map parsePath
-        match parseTree (r.drop k) with
-        | some t =>
-          match reduceSize hb b i d (fun p => faults.contains p) t with
-          | .returned t' calls =>
-            let dirs := (osWalk t').map (fun e => showPath e.path)
-            joinSp (["returned", "calls", toString calls.length] ++ calls.map showPath ++
-              ["dirs", toString dirs.length] ++ dirs ++ ["items", showItems (getItems t')])
-          | .raised e => "raised " ++ e
-        | none => "bad-op"
-      else "bad-op"
-    | _, _, _, _, _ => "bad-op"
+def showAfter (tag : String) (t' : Dir) (calls : List Path) : String :=
+  let dirs := (osWalk t').map (fun e => showPath e.path)
+  joinSp ([tag, "calls", toString calls.length] ++ calls.map showPath ++
+    ["dirs", toString dirs.length] ++ dirs ++ ["items", showItems (getItems t')])
+
+/-- `withStop = false`: the `reduce` request (`reduceSize`); `true`: `reducei` (`reduceSizeInt`, one more token). -/
+def handleReduce (withStop : Bool) : List String → String
+  | hb :: b :: i :: d :: r0 =>
+    let stopTok : Option (Option Nat) × List String :=
+      if withStop then
+        match r0 with
+        | s :: r => ((if s = "-" then some none else (s.toNat?).map some), r)
+        | [] => (none, [])
+      else (some none, r0)
+    match stopTok with
+    | (some stop, k :: r) =>
+      match (if hb = "1" then some true else if hb = "0" then some false else none),
+          parseBytesArg b, optInt? i, optInt? d, k.toNat? with
+      | some hb, some b, some i, some d, some k =>
+        if k ≤ r.length then
+          let faults := (r.take k).map parsePath
+          match parseTree (r.drop k) with
+          | some t =>
+            if withStop then
+              match reduceSizeInt hb b i d (fun p => faults.contains p) stop t with
+              | .returned t' calls => showAfter "returned" t' calls
+              | .interrupted t' calls => showAfter "interrupted" t' calls
+              | .raised e => "raised " ++ e
+            else
+              match reduceSize hb b i d (fun p => faults.contains p) t with
+              | .returned t' calls => showAfter "returned" t' calls
+              | .raised e => "raised " ++ e
+          | none => "bad-op"
+        else "bad-op"
+      | _, _, _, _, _ => "bad-op"
+    | _ => "bad-op"
   | _ => "bad-op"
 
 def handle (line : String) : String :=
@@ -137,7 +159,8 @@ def handle (line : String) : String :=
     match parseCodePoints r with
     | some cs => showMem (memstrChars cs)
     | none => "bad-op"
-  | "reduce" :: r => handleReduce r
+  | "reduce" :: r => handleReduce false r
+  | "reducei" :: r => handleReduce true r
   | _ => "bad-op"
 
 def main : IO Unit := lineLoop handle
